@@ -60,6 +60,9 @@ func (x *Exec) setupPkgDirectives() {
 				// smt adt <type> list <head> <tail>
 				x.adts[path+"."+f[1]] = adtSpec{Kind: f[2], Head: f[3], Tail: f[4]}
 			}
+			if len(f) >= 2 && f[0] == "slicemodel" && f[1] == "array" && path == x.pkg.Path {
+				x.arraySlices = true
+			}
 			if len(f) >= 3 && f[0] == "valuetree" {
 				// smt valuetree <Iface> <T1> <T2> ...
 				x.vtrees[path] = &valueTree{pkg: path, iface: f[1], types: f[2:]}
@@ -541,10 +544,21 @@ func (x *Exec) runBody(u *Unit, st *State, sig *types.Signature, body *ast.Block
 			x.checkPost(u, e, entrySt, mk, res, body)
 		})
 	}
+	x.retOrd = map[*ast.ReturnStmt]int{}
+	ast.Inspect(body, func(n ast.Node) bool {
+		switch n := n.(type) {
+		case *ast.FuncLit:
+			return false
+		case *ast.ReturnStmt:
+			x.retOrd[n] = len(x.retOrd)
+		}
+		return true
+	})
 	x.block(st, fr, body.List, func(s *State) {
 		if sig.Results().Len() > 0 && len(fr.results) == 0 {
 			return
 		}
+		x.curRet = "end"
 		var res []Term
 		for _, o := range fr.results {
 			res = append(res, x.getVar(s, o))
